@@ -25,6 +25,9 @@ pub enum Policy {
     FlushFault(u8),
     /// one Interrupted before the k-th call
     IntrAt(usize),
+    /// the k-th write call accepts about half of what it is offered, the call after it fails
+    /// (a device that runs full in the middle of one buffer)
+    ShortThenFault(usize, u8),
 }
 
 pub struct Shared {
@@ -72,6 +75,18 @@ impl io::Write for ScriptedSink {
                 }
             }
             Policy::FlushFault(_) => {}
+            Policy::ShortThenFault(i, kind) => {
+                if k == i && buf.len() > 1 {
+                    res = Ok(std::cmp::max(1, buf.len() / 2));
+                } else if k == i + 1 {
+                    res = match kind {
+                        0 => Err(("err".into(), io::ErrorKind::Other)),
+                        1 => Err(("err".into(), io::ErrorKind::BrokenPipe)),
+                        2 => Err(("err".into(), io::ErrorKind::WouldBlock)),
+                        _ => Ok(0),
+                    }
+                }
+            }
             Policy::IntrAt(i) => {
                 if k == i && !self.interrupted_once {
                     self.interrupted_once = true;
@@ -414,6 +429,10 @@ pub fn c07(log: &mut Log, seed: u64, tier: &str) {
         for pos in 0..w {
             run(log, items, set, Policy::IntrAt(pos), b"", None, seed, true);
         }
+        // a sink that runs full in the middle of a buffer: bytes_written() still counts what it took
+        for pos in 0..w {
+            run(log, items, set, Policy::ShortThenFault(pos, (pos % 4) as u8), b"", None, seed, true);
+        }
         // pre-filled sinks, BufWriter
         run(log, items, set, Policy::Cap(3), b"earlier bytes", None, seed, true);
         run(log, items, set, Policy::Random { short: 50, intr: 30 }, b"\x00\x01", None, seed + i as u64, true);
@@ -467,6 +486,9 @@ pub fn c11(log: &mut Log, seed: u64, tier: &str) {
             for kind in 0..4u8 {
                 run(log, items, set, Policy::FaultAt { index: idx, kind }, b"", None, seed, true);
             }
+            for kind in 0..4u8 {
+                run(log, items, set, Policy::ShortThenFault(idx, kind), b"", None, seed, true);
+            }
             idx += step;
         }
         for kind in 0..5u8 {
@@ -487,6 +509,7 @@ pub fn c11(log: &mut Log, seed: u64, tier: &str) {
             let mut idx = 0;
             while idx < w {
                 run_bulk(log, items, front, Policy::FaultAt { index: idx, kind: ((idx + j) % 4) as u8 }, seed);
+                run_bulk(log, items, front, Policy::ShortThenFault(idx, ((idx + j + 1) % 4) as u8), seed);
                 idx += step;
             }
             run_bulk(log, items, front, Policy::FlushFault((i % 5) as u8), seed);
